@@ -45,6 +45,8 @@ def plan(tier, seed):
 def run_shard(desc, ctx):
     for i in range(desc['triples']):
         run_case({'kind': 'triple', 'seed': [desc['seed'], desc['shard'], i]}, ctx)
+    if desc['shard'] < 3:
+        run_case({'kind': 'triple', 'seed': [desc['seed'], desc['shard'], 0], 'big': True}, ctx)
     for i in range(desc['models']):
         run_case({'kind': 'model', 'seed': [desc['seed'], desc['shard'], i, 6]}, ctx)
     for i in range(desc['pca']):
@@ -77,6 +79,11 @@ def _triple(case, ctx):
     n = int(rng.integers(0, 7))
     k = int(rng.integers(1, 6))
     nchan = int(rng.integers(k, k + 5))
+    wide = case['seed'][-1] % 25 == 3          # a large probe: wide id range and many requested channels
+    if wide:
+        n, k, nchan = int(rng.integers(2, 6)), int(rng.integers(4, 10)), 384
+    if case.get('big'):
+        return _big_triple(case, ctx, rng)
     trailing = tuple(rng.integers(1, 4, size=int(rng.integers(0, 3))).tolist())
     dt = ['float32', 'float64', 'int32'][int(rng.integers(0, 3))]
     data = (rng.normal(size=(n, k) + trailing) * 50).astype(dt)
@@ -85,7 +92,7 @@ def _triple(case, ctx):
     cols = cols.astype(['int32', 'int64', 'uint32'][int(rng.integers(0, 3))])
     if cols.dtype.kind == 'i' and n:
         cols[rng.random(cols.shape) < 0.2] = -1
-    nreq = int(rng.integers(1, nchan + 3))
+    nreq = int(rng.integers(1, nchan + 3)) if not wide else int(rng.integers(17, 40))
     ch = rng.permutation(nchan + 3)[:nreq]
     as_list = bool(rng.integers(0, 2))
     discarded = bool(n and (~np.isin(cols, ch)).any())
@@ -125,11 +132,34 @@ def _triple(case, ctx):
                       {'route': 'triple', 'second_call': True})
 
 
+def _big_triple(case, ctx, rng):
+    # size: more spikes than any plausible internal batch (50000)
+    from phylib.io.model import from_sparse
+    n, k, nchan = [50001, 70000, 100003][case['seed'][1] % 3], 3, 8
+    data = rng.normal(size=(n, k)).astype(np.float32)
+    data[data == 0] = 1
+    cols = np.stack([rng.permutation(nchan)[:k] for _ in range(8)])[rng.integers(0, 8, size=n)].astype(np.int32)
+    ch = rng.permutation(nchan)[:5]
+    ctx.count(1, key=hkey('big', tuple(case['seed'])), nontrivial=True, cell=('triple_big',))
+    r = call(from_sparse, data, cols, ch)
+    if not r.ok:
+        ctx.violation('raised', {'big': n}, 'from_sparse raised %r on %d spikes' % (r.exc, n), {'route': 'triple', 'big': True}, tb=r.tb)
+        return
+    exp = np.zeros((n, len(ch)), dtype=data.dtype)
+    for j, c in enumerate(ch.tolist()):
+        hit = cols == c
+        rows = np.nonzero(hit.any(axis=1))[0]
+        exp[rows, j] = data[rows, hit[rows].argmax(axis=1)]
+    d = same(np.asarray(r.value), exp)
+    if d:
+        ctx.violation('densify_mismatch', {'big': n, 'seed': case['seed']}, 'from_sparse on %d spikes: %s' % (n, d), {'route': 'triple', 'big': True})
+
+
 def _model(case, ctx):
     from phylib.io.model import load_model
     rng = np.random.default_rng(case['seed'])
     feat = ['dense', 'sparse', 'sparse_rows'][int(rng.integers(0, 3))]
-    opts = dict(features=feat, tfeatures=bool(rng.integers(0, 2)), tfeat_rows=bool(rng.integers(0, 2)),
+    opts = dict(features=feat, tfeatures=bool(rng.integers(0, 2)), tfeat_rows=bool(rng.integers(0, 2)), tfeat_pad=bool(rng.integers(0, 2)),
                 nc=int(rng.integers(3, 8)), nt=int(rng.integers(2, 6)), ns=int(rng.integers(8, 40)),
                 dtype_ind=['int32', 'uint32', 'int64'][int(rng.integers(0, 3))],
                 clusters=['same', 'curated'][int(rng.integers(0, 2))])
@@ -258,7 +288,7 @@ def _tfeatures(m, spec, desc, ctx, rng):
             e = np.zeros(nt, TF.dtype)
             for kk, u in enumerate(cols.tolist()):
                 if 0 <= u < nt and (cols == u).sum() == 1:
-                    e[u] = TF[row, kk]
+                    e[u] = TF[row, kk]           # (-1 = unused slot: contributes nothing)
             if not np.array_equal(out[i], e):
                 ctx.violation('densify_mismatch', dict(desc, request=req),
                               'get_template_features: spike %d: %r != expected %r' % (s, out[i].tolist(), e.tolist()), f)
